@@ -619,7 +619,7 @@ func writeNestedTypeConversion(w *formatting.IndentedWriter, typeChange dsl.Type
 				rhs = fmt.Sprintf("std::stoi(%s)", sourceName)
 			case dsl.PrimitiveInt64:
 				rhs = fmt.Sprintf("std::stol(%s)", sourceName)
-			case dsl.PrimitiveUint8, dsl.PrimitiveUint16, dsl.PrimitiveUint32, dsl.PrimitiveUint64:
+			case dsl.PrimitiveUint8, dsl.PrimitiveUint16, dsl.PrimitiveUint32, dsl.PrimitiveUint64, dsl.PrimitiveSize:
 				rhs = fmt.Sprintf("std::stoul(%s)", sourceName)
 			case dsl.PrimitiveFloat32:
 				rhs = fmt.Sprintf("std::stof(%s)", sourceName)
